@@ -29,6 +29,7 @@ impl Instant { pub uninterp spec fn t(&self) -> int; }
 pub uninterp spec fn dur_ns(d: Duration) -> int;
 pub open spec fn max_dur_ns() -> int { 1000int * 365 * 24 * 3600 * 1_000_000_000 }
 pub broadcast axiom fn axiom_dur_nonneg(d: Duration) ensures #[trigger] dur_ns(d) >= 0;
+pub assume_specification [Duration::is_zero] (d: &Duration) -> (r: bool) ensures r == (dur_ns(*d) == 0);
 impl PartialEq for Instant {
     #[verifier::external_body]
     fn eq(&self, o: &Instant) -> (r: bool) ensures r == (self.t() == o.t()) { unimplemented!() }
@@ -198,7 +199,7 @@ impl<K> Deques<K> {
 
     #[verifier::external_body]
     pub fn push_back_ao<V>(&mut self, region: CacheRegion, kh: KeyHashDate<K>, entry: &mut ValueEntry<K, V>)
-        requires region is MainProbation,
+        requires region is MainProbation, //@ [C08,C11]
         ensures
             final(self).others_same(old(self)), final(self).write_order@ == old(self).write_order@,
             final(entry).ao().is_some(), !has_id(old(self).probation@, final(entry).ao().unwrap()),
@@ -220,7 +221,7 @@ impl<K> Deques<K> {
     /// panics (`unreachable!`) unless the entry's node is a member of the probation list
     #[verifier::external_body]
     pub fn move_to_back_ao<V>(&mut self, entry: &ValueEntry<K, V>)
-        requires entry.ao().is_some() ==> has_id(old(self).probation@, entry.ao().unwrap()),
+        requires entry.ao().is_some() ==> has_id(old(self).probation@, entry.ao().unwrap()), //@ [C08,C11]
         ensures
             final(self).others_same(old(self)), final(self).write_order@ == old(self).write_order@,
             entry.ao().is_none() ==> final(self).probation@ == old(self).probation@,
@@ -230,7 +231,7 @@ impl<K> Deques<K> {
     /// `entry.write_order_q_node().unwrap()`: panics if the entry has no write-order node
     #[verifier::external_body]
     pub fn move_to_back_wo<V>(&mut self, entry: &ValueEntry<K, V>)
-        requires entry.wo().is_some(),
+        requires entry.wo().is_some(), //@ [C08,C11]
         ensures
             final(self).others_same(old(self)), final(self).probation@ == old(self).probation@,
             !has_id(old(self).write_order@, entry.wo().unwrap()) ==> final(self).write_order@ == old(self).write_order@,
@@ -239,7 +240,7 @@ impl<K> Deques<K> {
 
     #[verifier::external_body]
     pub fn unlink_ao<V>(&mut self, entry: &mut ValueEntry<K, V>)
-        requires old(entry).ao().is_some() ==> has_id(old(self).probation@, old(entry).ao().unwrap()),
+        requires old(entry).ao().is_some() ==> has_id(old(self).probation@, old(entry).ao().unwrap()), //@ [C08,C11]
         ensures
             final(self).others_same(old(self)), final(self).write_order@ == old(self).write_order@,
             final(entry).ao().is_none(), final(entry).wo() == old(entry).wo(), final(entry).w() == old(entry).w(),
@@ -250,7 +251,7 @@ impl<K> Deques<K> {
 
     #[verifier::external_body]
     pub fn unlink_ao_from_deque<V>(deq_name: &str, deq: &mut Deque<KeyHashDate<K>>, entry: &mut ValueEntry<K, V>)
-        requires old(entry).ao().is_some() ==> has_id(old(deq)@, old(entry).ao().unwrap()),
+        requires old(entry).ao().is_some() ==> has_id(old(deq)@, old(entry).ao().unwrap()), //@ [C08,C11]
         ensures
             final(entry).ao().is_none(), final(entry).wo() == old(entry).wo(), final(entry).w() == old(entry).w(),
             final(entry).value == old(entry).value, final(entry).tm() == old(entry).tm(),
@@ -260,7 +261,7 @@ impl<K> Deques<K> {
 
     #[verifier::external_body]
     pub fn unlink_wo<V>(deq: &mut Deque<KeyDate<K>>, entry: &mut ValueEntry<K, V>)
-        requires old(entry).wo().is_some() ==> has_id(old(deq)@, old(entry).wo().unwrap()),
+        requires old(entry).wo().is_some() ==> has_id(old(deq)@, old(entry).wo().unwrap()), //@ [C08,C11]
         ensures
             final(entry).wo().is_none(), final(entry).ao() == old(entry).ao(), final(entry).w() == old(entry).w(),
             final(entry).value == old(entry).value, final(entry).ta() == old(entry).ta(),
